@@ -292,7 +292,8 @@ def case_sync(inp):
                 for s, d in r_objs.items():
                     if "get_state" + s not in get_keys:
                         continue
-                    scope = set((d["scope"] or "").split()) - {"own"}
+                    # an object without any pool_scope parameter uses the documented default scopes of a sync
+                    scope = set((d["scope"] if d["scope"] is not None else "swarm cluster shared").split()) - {"own"}
                     if params.get("get_location" + s) != d["location"] or set(params.get("pool_scope" + s, "own").split()) != scope:
                         fail(out, "A3_copy_is_get_only", inp, seen, {"get_location" + s: d["location"], "pool_scope" + s: sorted(scope)}, "get-location-or-scope")
         else:
